@@ -171,7 +171,8 @@ func fileMaxima(f IFile, key int) Prior {
 // respect to any even-sized buffer) and reads back the record of every key: each must hold what the file states.
 func c10Many(run *ev.Run, sizes []int) (int, error) {
 	checked := 0
-	for _, withPrior := range []bool{false, true} {
+	for _, priorMode := range []string{"none", "all", "alternating"} {
+		withPrior := priorMode != "none"
 		for _, n := range sizes {
 			root := rig.Scratch("c10many")
 			w, err := NewSigWorkerOn(filepath.Join(root, "storage"), 2)
@@ -249,9 +250,9 @@ func c10Many(run *ev.Run, sizes []int) (int, error) {
 						own = fmt.Sprintf(" and the instance's own history slot %d, attestation %d->%d", ps, pas, pat)
 					}
 					if slot < wantSlot || as < wantS || at < wantT {
-						run.Violate(fmt.Sprintf("many-keys-unprotected:n=%d:prior=%v", n, withPrior),
+						run.Violate(fmt.Sprintf("many-keys-unprotected:n=%d:prior=%s", n, priorMode),
 							fmt.Sprintf("import of %d keys reported success; the file states slot %d, attestation %d->%d for key #%d%s, the store holds slot %d, attestation %d->%d", n, 100+i, 10+i, 20+i, i, own, slot, as, at),
-							map[string]any{"check": "C10", "many_keys": n, "key_index": i, "with_prior": withPrior})
+							map[string]any{"check": "C10", "many_keys": n, "key_index": i, "prior": priorMode})
 						break
 					}
 				}
@@ -576,7 +577,7 @@ func C10(tier string) int {
 	}
 	budget := 150 * time.Second
 	if tier == "thorough" {
-		budget = 40 * time.Minute
+		budget = 15 * time.Minute
 	}
 	deadline := time.Now().Add(budget)
 	var mu sync.Mutex
